@@ -481,7 +481,7 @@ def _shape_ok(ctx, a, arr, sig, what):
 # ------------------------------------------------------------------------------------------------
 
 
-@CHECK.given("box_crop", lambda tier: box_cases(tier), quick=400, thorough=16000)
+@CHECK.given("box_crop", lambda tier: box_cases(tier), quick=400, thorough=8000)
 def box_crop(ctx, d):
     b = d["box"]
     tilted = bool(b.get("pr")) and (b["pr"][0] != 0.0 or b["pr"][1] != 0.0)
@@ -564,7 +564,7 @@ def box_crop(ctx, d):
 # ------------------------------------------------------------------------------------------------
 
 
-@CHECK.given("prism_crop", lambda tier: prism_cases(tier), quick=300, thorough=12000)
+@CHECK.given("prism_crop", lambda tier: prism_cases(tier), quick=300, thorough=6000)
 def prism_crop(ctx, d):
     from perception_eval.common.point import crop_pointcloud
 
@@ -808,7 +808,7 @@ def _combine_non_detection(area_cols, box_cls, rows):
     return out
 
 
-@CHECK.given("frame", lambda tier: frame_cases(tier, manager=False), quick=150, thorough=8000)
+@CHECK.given("frame", lambda tier: frame_cases(tier, manager=False), quick=150, thorough=4000)
 def frame(ctx, d):
     import numpy as np
     from perception_eval.evaluation.sensing.sensing_frame_config import SensingFrameConfig
@@ -847,7 +847,7 @@ def frame(ctx, d):
         ctx.cls("non_detection_failure")
 
 
-@CHECK.given("manager", lambda tier: frame_cases(tier, manager=True), quick=120, thorough=6000)
+@CHECK.given("manager", lambda tier: frame_cases(tier, manager=True), quick=120, thorough=3200)
 def manager(ctx, d):
     from perception_eval.config import SensingEvaluationConfig
     from perception_eval.evaluation.sensing.sensing_frame_config import SensingFrameConfig
